@@ -45,7 +45,7 @@ type OpOptions struct {
 	NodeRoot      bool // node(id:) at the root with fragments
 	NodeRootPlain bool // wild: node(id:) { id }
 	AliasHelpers  bool // wild: alias id/__typename
-	NoIDVar       bool // never call a client variable `id` (C01/C02 open finding variable-named-id)
+	IDVar         bool // sometimes call a client variable `id`, the name the executor uses for its own lookups (C01/C02 open finding variable-named-id)
 	EntityIDArgs  bool // String/ID argument values are sometimes the id of an existing entity (what an id-hint function recognises)
 }
 
@@ -260,7 +260,7 @@ func (g *opGen) args(fd *ast.FieldDefinition) string {
 			}
 			g.varDefs, g.nvar = g.varDefs[:nDefs], nVar
 			vn := fmt.Sprintf("v%d", g.nvar)
-			if !g.usedIDVar && g.r.Chance(1, 8) && !g.o.NoIDVar {
+			if !g.usedIDVar && g.r.Chance(1, 8) && g.o.IDVar {
 				vn = "id" // a client variable that happens to be called like the executor's own $id
 				g.usedIDVar = true
 				g.features["variable-named-id"] = true
